@@ -1155,15 +1155,17 @@ impl FromIterator<char> for LeanString {
         let iter = iter.into_iter();
 
         let (lower_bound, _) = iter.size_hint();
-        let mut repr = match Repr::with_capacity(lower_bound) {
+        // Accumulate in a `LeanString` (not a raw `Repr`, which has no `Drop`), so that the buffer
+        // is released if the iterator or a later allocation panics.
+        let mut buf = LeanString(match Repr::with_capacity(lower_bound) {
             Ok(buf) => buf,
             Err(_) => Repr::new(), // Ignore the error and hope that the lower_bound is incorrect.
-        };
+        });
 
         for ch in iter {
-            repr.push_str(ch.encode_utf8(&mut [0; 4])).unwrap_with_msg();
+            buf.push(ch);
         }
-        LeanString(repr)
+        buf
     }
 }
 
